@@ -51,15 +51,16 @@ def run(ctx):
                 "small dyadic numbers) x share in {0, 1/2, 1, k/8} x ALL 2^n basis states; a few out-of-regime configurations for the correspondence only; "
                 "distinct = distinct (instance, limit, penalties); non-trivial = at least 2 qubits and penalties in the regime")
     batch = je.Batch()
-    cases = load_corpus(PID) + [gen_case(ctx.rng) for _ in range(ctx.n(500, 4000))] + [out_of_regime_case(ctx.rng) for _ in range(ctx.n(40, 300))]
+    cases = load_corpus(PID) + [gen_case(ctx.rng) for _ in range(ctx.n(320, 4000))] + [out_of_regime_case(ctx.rng) for _ in range(ctx.n(30, 300))]
     if not ctx.quick:
         for inst, L in je.small_scope():
             if 1 <= je.expected_qubits(inst, L) <= 10:
                 P, kind = je.gen_penalties(ctx.rng)
                 cases.append({"kind": "c01", "inst": inst, "L": L, "P": P, "shape": "small-scope", "penalties": kind})
         ctx.notes["exhaustive_small_scope"] = "all instances with <= 2 jobs x <= 2 operations on 2 machines, durations <= 2, slack 0..2 with 1..10 qubits, one penalty configuration each, all basis states"
+    cases += [dict(je.gen_contended_case(ctx.rng, share=None), kind=PID.lower()) for _ in range(ctx.n(24, 250))]
     for c in cases:
-        summ = je.examine(ctx, batch, c, WANT, ctx.rng)
+        summ = (je.examine_low_energy if c.get("scan") else je.examine)(ctx, batch, c, WANT, ctx.rng)
         tally_case(ctx, c, summ)
     je.report_mismatches(ctx, PID, batch)
 
@@ -67,7 +68,7 @@ def run(ctx):
 def replay(ctx, payload):
     c = payload.get("case") or payload.get("failing_input")
     batch = je.Batch()
-    je.examine(ctx, batch, c, WANT, ctx.rng)
+    (je.examine_low_energy if c.get("scan") else je.examine)(ctx, batch, c, WANT, ctx.rng)
     for v in ctx.violations[:10]:
         print("oracle:", v["key"], "-", v["what"])
     print("impl-vs-property:", "FAILS" if ctx.violations else "ok")
